@@ -82,6 +82,30 @@ Theorem C10_ident_inj :
 Proof. exact ident_inj. Qed.
 Print Assumptions C10_ident_inj.
 
+(** One received bundle, one action: in one call of recv_bundle at most one status report is built (handed to
+    send_bundle), at most one delivery callback fires and the bundle is handed to a CL at most once.
+    [count p evs] = number of events satisfying p; [is_report_ev] covers a report sent whole, as fragments,
+    or failing in send_bundle.  (The tail of recv_bundle is translated into Gen/RecvTail.v; without the
+    [return] of its delete branch this does not hold.) *)
+Theorem C10_one_action_per_bundle :
+  forall (matches : N -> eid -> bool) (a : agent) (b : bundle),
+    let evs := snd (fst (recv_core matches a b)) in
+    (count is_report_ev evs <= 1)%nat /\ (count is_deliver_ev evs <= 1)%nat /\ (count is_tx_ev evs <= 1)%nat.
+Proof. exact one_finish. Qed.
+Print Assumptions C10_one_action_per_bundle.
+
+(** The finish step for EVERY action record: 'delete' takes precedence - one finish, nothing handed to a CL -
+    also when 'deliver' and/or 'forward' are recorded too (an application step refusing a bundle already
+    accepted for delivery); without 'delete', one finish unless both 'deliver' and 'forward' are recorded. *)
+Theorem C10_delete_takes_precedence :
+  forall (matches : N -> eid -> bool) (a : agent) (b : bundle) (acts : list action) (rsn : option N) (c : bool),
+    let evs := snd (final matches a b acts rsn c) in
+    (mem ADel acts = true -> (count is_report_ev evs <= 1)%nat /\ count is_tx_ev evs = 0%nat)
+    /\ (mem ADlv acts && mem AFwd acts = false -> (count is_report_ev evs <= 1)%nat)
+    /\ (count is_deliver_ev evs <= 1)%nat /\ (count is_tx_ev evs <= 1)%nat.
+Proof. exact final_counts. Qed.
+Print Assumptions C10_delete_takes_precedence.
+
 (** The chain-step orders found in the source (Gen/Chain.v), stably sorted as Agent.__init__ does, give
     the step sequence the model follows. *)
 Theorem C10_chain_order :
@@ -108,7 +132,7 @@ Proof. vm_compute. repeat split. Qed.
 
 Example C10_admin_delivered_example :
   let a := w_agent [(0, AFwd)] [w_rpt_route] in
-  let b := mkBundle 5 1 7 1000 1 None ALL_REPORT_FLAGS 5 true None 0 95 true in
+  let b := mkBundle 5 1 7 1000 1 None ALL_REPORT_FLAGS 5 true None 0 95 true false in
   accepted a b = true /\ local_dest a b = true /\ has_deliver (snd (fst (recv_core w_matches a b))) = true.
 Proof. vm_compute. repeat split. Qed.
 
@@ -123,6 +147,15 @@ Example C10_at_most_once_example :
        ident_of (w_bundle 1000 3 None)]
   = [1; 1; 1; 1; 0]%nat.
 Proof. vm_compute. reflexivity. Qed.
+
+(* a bundle for the administrative endpoint that the admin element refuses (ACME record it rejects): the record
+   holds receive, deliver and delete; ONE report, one delivery callback, nothing forwarded *)
+Example C10_refused_example :
+  let a := w_agent [] [w_rpt_route] in
+  let b := mkBundle 5 1 7 1000 1 None ALL_REPORT_FLAGS 5 true None 0 95 true true in
+  chain_acts w_matches a b = [ARecv; ADlv; ADel]
+  /\ map (fun p => count p (snd (fst (recv_core w_matches a b)))) [is_report_ev; is_deliver_ev; is_tx_ev] = [1; 1; 0]%nat.
+Proof. vm_compute. split; reflexivity. Qed.
 
 Example C10_no_route_example :
   let a := w_agent [] [w_rpt_route] in
